@@ -396,6 +396,11 @@ func (g *gatedClient) Do(req *http.Request) (*http.Response, error) {
 	switch kind {
 	case "fail":
 		return nil, errors.New("injected HTTP failure")
+	case "bad":
+		g.c.mu.Lock()
+		g.c.opened++
+		g.c.mu.Unlock()
+		return &http.Response{StatusCode: 500, Status: "500 Internal Server Error", Body: &bodySpy{io.NopCloser(strings.NewReader("bridge failure\n")), g.c}}, nil
 	case "note":
 		g.c.mu.Lock()
 		g.c.opened++
@@ -450,7 +455,7 @@ func TestHTTPChan(t *testing.T) {
 			ch := jhttp.NewChannel("http://x/", &jhttp.ChannelOptions{Client: gc})
 			var mu sync.Mutex
 			nrecv, neof, refused := 0, 0, 0
-			closeDone := false
+			closeDone, closeInvoked := false, false
 			bad := func(why string) { res.add(sc.Name, why) }
 			for si, st := range sc.Steps {
 				switch st.A {
@@ -483,6 +488,7 @@ func TestHTTPChan(t *testing.T) {
 						mu.Unlock()
 					}()
 				case "close":
+					closeInvoked = true
 					go func() { ch.Close(); mu.Lock(); closeDone = true; mu.Unlock() }()
 				}
 				synctest.Wait()
@@ -528,21 +534,18 @@ func TestHTTPChan(t *testing.T) {
 			}
 			gc.mu.Unlock()
 			synctest.Wait()
-			closeCalled := false
-			for _, st := range sc.Steps {
-				if st.A == "close" {
-					closeCalled = true
-				}
-			}
-			if !closeCalled { // the library closes a channel exactly once (C10); so does the harness
+			if !closeInvoked { // the library closes a channel exactly once (C10); so does the harness
 				go func() { ch.Close(); mu.Lock(); closeDone = true; mu.Unlock() }()
 				synctest.Wait()
 			}
 			mu.Lock()
-			if !closeDone {
-				bad("Close does not return although every round trip has finished")
-			}
+			cd := closeDone
 			mu.Unlock()
+			if !cd {
+				bad("Close does not return although every round trip has finished")
+				os.WriteFile(os.Getenv("VERIF_OUT"), mustJSON(res), 0o644)
+				os.Exit(0) // goroutines are left blocked: the bubble cannot be left
+			}
 			synctest.Wait()
 			if cnt.opened != cnt.closed {
 				bad(fmt.Sprintf("%d response bodies opened, %d closed", cnt.opened, cnt.closed))
